@@ -1,8 +1,4 @@
 SPECIFICATION Spec
 CONSTANTS
   TraceFile = "trace.ndjson"
-  Eps = 5
-  AllowErr = FALSE
-INVARIANT NotDone
-POSTCONDITION Report
 CHECK_DEADLOCK FALSE
